@@ -33,8 +33,11 @@ def main():
                         replay = open(rp).read()[:3000]
             res[p] = {'exit': c.returncode, 'lines': lines, 'wall_s': round(time.time() - t0, 1), 'replay_head': replay}
             print(p, 'exit', c.returncode); print('\n'.join(lines))
+        rp = os.path.join(d, 'result.json')
+        prev = json.load(open(rp)).get('results', {}) if os.path.exists(rp) else {}
+        prev.update(res)
         json.dump({'checked_at_repo': subprocess.run(['git', '-C', '/repo', 'rev-parse', '--short', 'HEAD'], capture_output=True, text=True).stdout.strip(),
-                   'results': res}, open(os.path.join(d, 'result.json'), 'w'), indent=1)
+                   'results': prev}, open(rp, 'w'), indent=1)
         return 0
     finally:
         shutil.rmtree(scratch, ignore_errors=True)
